@@ -22,7 +22,7 @@ ENGINES = [
 # id -> (engine, technique, level text, level note, design ref)
 CLAIMED = {
     "C01": ("isa", "exhaustive enumeration of all 65536 opcodes x second-word alphabet x bounded state alphabet (bases + all 1-field deviations), each executed on the implementation and on a frozen reference library, outcomes compared; generator clause: enumeration of the RNG-answer alphabet with bounded deviations through the real generator",
-            "The opcode space is enumerated completely, so every per-opcode deviation from the hardware-validated semantics that shows on some state of the alphabet is found, not only the ones a test happens to execute; the state alphabet holds every boundary value of every register-file field (incl. hidden shadow banks) one field at a time. The generator clause owns the generator's only nondeterminism (its RNG) and enumerates min/max/mid answers for every draw with bounded deviations, so the window/pc/no-abort guarantees are checked on the boundary vectors the generator can emit.",
+            "The opcode space is enumerated completely, so every per-opcode deviation from the hardware-validated semantics that shows on some state of the alphabet is found, not only the ones a test happens to execute; the state alphabet holds every boundary value of every register-file field (incl. hidden shadow banks) one field at a time. An addressing-cluster product (18 modulo values x 128 steps x 16 mode combinations x 6 register positions x 6 stepping instructions) covers the one place where behaviour depends on several configuration fields at once. The generator clause owns the generator's only nondeterminism (its RNG) and enumerates min/max/mid answers for every draw with bounded deviations, so the window/pc/no-abort guarantees are checked on the boundary vectors the generator can emit.",
             "Trusted: /verif/ref (frozen copy of the interpreter at the pinned, hardware-validated state plus fix: commits, sha256 recorded), the glue flattening, libstdc++'s uniform_int_distribution mapping, g++. States outside the alphabet (multi-field combinations beyond the bases) are not visited.",
             "DESIGN.md section 4, C01"),
     "C02": ("text", "exhaustive enumeration of all 65536 first words x start addresses through the real decode table, disassembler, assembler, generator and interpreter (fetch log from the memory observer); unused-bit flips taken from the table text",
@@ -62,7 +62,7 @@ CLAIMED = {
             "Trusted: the 50-line step model written from the statement, hand-assembled addressing opcodes, g++. With modulo enabled only steps +1/-1/0 are defined by the statement (other steps: alignment guarantee only).",
             "DESIGN.md section 4, C10"),
     "C11": ("sys", "exhaustive enumeration of all 2^18 memory words x all views (host accessors, raw bytes, instruction fetch, 13 guest load/store forms, movp/movd) and of all MMIO window bases x boundary offsets on the real machine, memory observer as write oracle",
-            "The memory is small enough to visit every word through every view, for both banks and both memory-ownership modes, so the address arithmetic of the statement is decided completely rather than at sampled addresses; every window base k*0x200 (and off-grid bases) is checked at both edges for register-vs-memory routing, with the memory observer proving that no write reaches the cell underneath.",
+            "The memory is small enough to visit every word through every view, for both banks and both memory-ownership modes, so the address arithmetic of the statement is decided completely rather than at sampled addresses; every window base k*0x200 (and off-grid bases) is checked at both edges for register-vs-memory routing, with the memory observer proving that no write reaches the cell underneath; stores into program memory must be seen by the next fetch inside one Run call (next instruction, under rep, at the end of a block).",
             "Trusted: hand-assembled opcodes of the load/store forms, the memory-observer hook, g++. Default paging mode only.",
             "DESIGN.md section 4, C11"),
     "C12": ("sys", "exhaustive enumeration of write histories over all MMIO offsets x value alphabet x paths x prefixes on the real MMIORegion, checked against a documented field/coupling table after every write (read-all before and after)",
@@ -78,22 +78,22 @@ CLAIMED = {
             "Trusted: the reference handshake model, g++, snapshot/restore of Apbp fields through -fno-access-control. Payloads restricted to {1,2}, semaphore bits to {0,1,15}.",
             "DESIGN.md section 4, C14"),
     "C15": ("periph", "explicit-state breadth-first search over the real Timer object, reference model in lock-step on every transition, Skip(k) vs k x Tick differential on every state",
-            "All states of the timer reachable within the depth bound over the full alphabet, and the complete reachable set of the finite sub-machine (start<=3, no free-running), are visited; in every state every event including Skip(k) for every k up to the reported horizon is applied to the real object and compared with the statement's model and with k real Ticks; a third layer puts two timers on one CoreTiming (180 x 180 state pairs x 7 budgets) and compares the aggregated fast-forward with that many aggregated cycles.",
+            "All states of the timer reachable within the depth bound over the full alphabet, and the complete reachable set of the finite sub-machine (start<=3, no free-running), are visited; in every state every event including Skip(k) for every k up to the reported horizon is applied to the real object and compared with the statement's model and with k real Ticks; a third layer puts two timers on one CoreTiming (180 x 180 state pairs x 7 budgets) and compares the aggregated fast-forward with that many aggregated cycles; a fourth layer reaches its states by replaying event histories on freshly constructed timers (depth 9/12, nodes merged on public fields plus a behavioural probe), so state a Timer keeps beyond its public fields is the product of a real history.",
             "Trusted: the 60-line reference model of the statement, g++. Time scale fixed at 0. Counter values beyond those reachable from the start alphabet {0,1,2,3,0xFFFF}x{0,1,0xFFFF} within the depth are not visited.",
             "DESIGN.md section 4, C15"),
     "C16": ("periph", "explicit-state breadth-first search to fixpoint over the real Btdmp object per period, reference FIFO + frame clock in lock-step, Skip(k) vs k x Tick differential",
-            "For each period and value labelling the complete reachable state set (clock phase x enable x flags x queue fill 0..16) is enumerated; every event in every state is executed on the real object and compared with the reference FIFO (frames, order, flags, interrupt count, queue content), and Skip(k) for every k up to the reported horizon is compared with k real Ticks.",
+            "For each period and value labelling the complete reachable state set (clock phase x enable x flags x queue fill 0..16) is enumerated; every event in every state is executed on the real object and compared with the reference FIFO (frames, order, flags, interrupt count, queue content), and Skip(k) for every k up to the reported horizon is compared with k real Ticks; every transition runs on a freshly constructed device, and a further layer drives the port through CoreTiming::Skip / Tick the way the interpreter's idle fast-forward does.",
             "Trusted: the reference FIFO model, g++. Period fixed before the first cycle; period 0 and period changes are outside the statement. Queue values are consecutive sequence numbers relabelled per state (the device never inspects values).",
             "DESIGN.md section 4, C16"),
     "C17": ("sys", "exhaustive enumeration of API call histories up to a depth bound on real instances built over controlled heap fill patterns, observation equality between instances and between h1;Reset;h2 and fresh;Reset;h2",
-            "All histories of length <= 2 over a 34-call API alphabet are executed on three instances whose heap is pre-filled with different patterns (with and without an initial Reset), and every pair (h1 of length <= 2, h2 of length <= 1) is executed as h1;Reset;h2 and compared with fresh;Reset;h2; the observation covers every modelled component (registers incl. hidden banks, latches, MIU, ICU incl. vectors, APBP, timers, audio port, DMA, AHBM incl. burst queues, the whole memory, host getters, callback log). Uninitialised members and incomplete resets are history-dependent bugs that need exactly this kind of exhaustive pairing to show.",
+            "All histories of length <= 2 over a 34-call API alphabet are executed on three instances whose heap is pre-filled with different patterns (with and without an initial Reset), and every pair (h1 of length <= 2, h2 of length <= 1) is executed as h1;Reset;h2 and compared with fresh;Reset;h2; the observation covers every modelled component (registers incl. hidden banks, latches, MIU, ICU incl. vectors, APBP, timers, audio port, DMA, AHBM incl. burst queues, the whole memory, host getters, callback log). A third layer repeats the Reset comparison with host-supplied DSP memory (instance in a buffer full of 0x5A, reference in a zeroed one). Uninitialised members and incomplete resets are history-dependent bugs that need exactly this kind of exhaustive pairing to show.",
             "Trusted: operator-new replacement as the allocation seam (malloc'd memory is not filled), g++, -fno-access-control observation of private state. Raw backing words of unimplemented MMIO fields and DMA transfer-internal counters are not observed.",
             "DESIGN.md section 4, C17"),
     "C18": ("safety", "exhaustive enumeration of guest-controllable inputs (all 65536 opcodes x second words x reachable states x pc/prpage extremes, all opcodes x boundary values of the shift-amount register, control-flow forms to the edges of program memory, every MMIO offset x value alphabet x both paths, DMA/AHBM configuration extremes) on a sanitizer build, with the memory observer rejecting any out-of-range DSP memory word address; outcome classification per case",
             "Each family is a finite product that is executed completely (the DMA mode product is reduced in the quick tier); every case runs in a supervised child so that a sanitizer abort, a libstdc++ index assertion, a bounds-oracle hit or a hang is attributed to exactly one case and replayed alone; acceptable outcomes are exactly the three the statement allows.",
             "Trusted: clang 14 AddressSanitizer/UBSan (incl. detect_stack_use_after_return), _GLIBCXX_ASSERTIONS, the memory-observer hook, the 10 s per-case watchdog. Register states are reachable ones; uninitialised reads are outside ASan's scope (C17 covers constructor-uninitialised members).",
             "DESIGN.md section 4, C18"),
-    "C19": ("sched", "stateless model checking of the real code under a controlled scheduler: DFS over all schedules of six two-thread harnesses up to a preemption bound (iterative 0..4, thorough 0..10), state-hash pruning at choice points, per-schedule oracle; data races by ThreadSanitizer in a separate free-running pass of the same bodies",
+    "C19": ("sched", "stateless model checking of the real code under a controlled scheduler: DFS over all schedules of eight two-thread harnesses up to a preemption bound (iterative 0..4, thorough 0..10), state-hash pruning at choice points, per-schedule oracle; data races by ThreadSanitizer in a separate free-running pass of the same bodies",
             "Every interleaving of the host API calls and the DSP's instruction stream at the granularity of lock operations, latch accesses and instruction/call boundaries is executed up to the preemption bound, so lost updates, check-then-act windows, missed interrupt deliveries and (self-)deadlocks that need up to four (ten) specific preemptions are found deterministically and replayed from a recorded schedule; unsynchronised accesses, which a serialising scheduler cannot see, are caught by ThreadSanitizer on the same bodies running free.",
             "Trusted: the scheduler (coroutines, mutex ownership model incl. recursive mutexes, yield/spin detection), glibc's pthread_mutex_t kind field, ThreadSanitizer, g++/clang. Sequential consistency assumed for the explored interleavings; two threads; DSP horizon 120-160 instructions.",
             "DESIGN.md section 4, C19"),
